@@ -351,9 +351,14 @@ Qed.
 Lemma needs_quotes_false_all_valid sym :
   needs_quotes sym = false -> forallb (fun c => negb (is_invalid c)) sym = true.
 Proof.
-  unfold needs_quotes. induction sym as [|c s IH]; cbn [existsb forallb]; [reflexivity|].
+  unfold needs_quotes. intros H0. apply orb_false_iff in H0 as [H0 _]. revert H0. unfold has_invalid_char.
+  induction sym as [|c s IH]; cbn [existsb forallb]; [reflexivity|].
   intros H. apply orb_false_iff in H as [Hc Hs]. unfold is_invalid at 1. rewrite Hc. cbn. exact (IH Hs).
 Qed.
+
+Lemma needs_quotes_false_not_reserved sym :
+  needs_quotes sym = false -> existsb (str_eqb sym) src_reserved_words = false.
+Proof. unfold needs_quotes. intros H. apply orb_false_iff in H as [_ H]. exact H. Qed.
 
 Lemma skip_ws_nonspace c s : is_space c = false -> skip_ws (c :: s) = c :: s.
 Proof. intros H. unfold skip_ws. cbn [take_while]. rewrite H. reflexivity. Qed.
@@ -374,11 +379,10 @@ Qed.
 Lemma symbol_text_reads_back sym rest c0 s0 :
   sym = c0 :: s0 -> is_space c0 = false ->
   existsb (fun c => c =? 34) sym = false ->
-  existsb (str_eqb sym) src_reserved_words = false ->
   (match rest with [] => True | c :: _ => is_invalid c = true end) ->
   read_symbol (symbol_text sym ++ rest) = Ok (sym, rest).
 Proof.
-  intros Hsym Hsp Hq Hres Hrest. unfold symbol_text.
+  intros Hsym Hsp Hq Hrest. unfold symbol_text.
   destruct (needs_quotes sym) eqn:Hn.
   - (* quoted *)
     unfold read_symbol. cbn [app]. rewrite (skip_ws_nonspace 34) by reflexivity.
@@ -394,7 +398,7 @@ Proof.
     rewrite Hsym. cbn [app]. rewrite (read_symbol_not_quote c0 (s0 ++ rest) Hsp Hne).
     unfold read_symbol_bare. change (c0 :: s0 ++ rest) with ((c0 :: s0) ++ rest). rewrite <- Hsym.
     rewrite (take_while_all (fun c => negb (is_invalid c)) sym rest).
-    + rewrite Hres. reflexivity.
+    + rewrite (needs_quotes_false_not_reserved sym Hn). reflexivity.
     + apply needs_quotes_false_all_valid. exact Hn.
     + destruct rest as [|c r]; [exact I | rewrite Hrest; reflexivity].
 Qed.
